@@ -51,9 +51,10 @@ func (timeoutErr) Timeout() bool   { return true }
 func (timeoutErr) Temporary() bool { return true }
 
 var (
-	errScriptedReset  = errors.New("scripted transport: connection reset by peer")
-	errScriptedClosed = errors.New("scripted transport: use of closed connection")
-	errScriptedWrite  = errors.New("scripted transport: write failed")
+	errScriptedReset    = errors.New("scripted transport: connection reset by peer")
+	errScriptedClosed   = errors.New("scripted transport: use of closed connection")
+	errScriptedWrite    = errors.New("scripted transport: write failed")
+	errScriptedDeadline = errors.New("scripted transport: cannot set the write deadline")
 )
 
 type Transport struct {
@@ -72,10 +73,12 @@ type Transport struct {
 	readDeadline time.Time
 
 	// outbound
-	writes    []*WriteRec
-	HoldAll   bool // every Write except those of the reading goroutine (Watch) is held until released
-	readerGo  int64
-	failWrite bool // Writes fail without recording anything
+	writes          []*WriteRec
+	HoldAll         bool // every Write except those of the reading goroutine (Watch) is held until released
+	readerGo        int64
+	failWrite       bool           // Writes fail without recording anything
+	deadlineFails   map[int64]bool // goroutines for which SetWriteDeadline fails
+	nWriteDeadlines int
 	// C14 free-running mode: hold every writer until another Write has been recorded or grace passes
 	pairHold bool
 	grace    time.Duration
@@ -203,7 +206,26 @@ func (t *Transport) SetReadDeadline(d time.Time) error {
 	t.mu.Unlock()
 	return nil
 }
-func (t *Transport) SetWriteDeadline(time.Time) error { return nil }
+func (t *Transport) SetWriteDeadline(time.Time) error {
+	gid := curGoid()
+	t.mu.Lock()
+	defer t.mu.Unlock()
+	t.nWriteDeadlines++
+	if t.deadlineFails[gid] {
+		return errScriptedDeadline
+	}
+	return nil
+}
+
+// FailWriteDeadline: SetWriteDeadline fails for calls made by that goroutine (Write keeps working).
+func (t *Transport) FailWriteDeadline(goid int64, on bool) {
+	t.mu.Lock()
+	if t.deadlineFails == nil {
+		t.deadlineFails = map[int64]bool{}
+	}
+	t.deadlineFails[goid] = on
+	t.mu.Unlock()
+}
 
 // ---- script side
 
